@@ -15,13 +15,35 @@ def gen_util_problem(rng):
     r = rng.random()
     temps = [s["t_supply"] for s in pr["streams"]] + [s["t_target"] for s in pr["streams"]]
     lo, hi = min(temps), max(temps)
+    cls = [P.classify(x) for x in pr["streams"]]
+    hu_t_min = max([float(h + d) for hot, l, h, cp, d in cls if not hot] or [hi])      # hottest shifted cold target
+    cu_t_max = min([float(l - d) for hot, l, h, cp, d in cls if hot] or [lo])          # coldest shifted hot target
     if r < 0.12:
         # a cold utility that is too warm to reach the coldest hot stream
         dt = rng.choice([5.0, 10.0])
         pr["utilities"] = [u for u in pr["utilities"] if u["type"] == "Hot"] + [
             {"name": "CW", "type": "Cold", "t_supply": lo + rng.choice([-2.0, 0.0, 3.0]), "t_target": lo + rng.choice([-2.0, 0.0, 3.0]),
              "heat_flow": 0.0, "dt_cont": dt, "htc": 1.0, "price": 10.0}]
-    elif r < 0.24:
+    elif r < 0.30:
+        # the only hot-capable utility is a gliding loop that straddles the hottest shifted cold target,
+        # entered in either direction and as type Hot or Both; symmetric variant on the cold side
+        dt = rng.choice([0.0, 5.0, 10.0])
+        g = rng.choice([20.0, 30.0, 50.0])
+        if rng.random() < 0.5:
+            a = hu_t_min + dt - rng.choice([5.0, 15.0, 30.0, 60.0]); b = hu_t_min + dt + rng.choice([5.0, 10.0, 20.0])
+            if rng.random() < 0.3:
+                a, b = b, a               # usual direction (supply hotter); otherwise entered in the heating direction
+            pr["utilities"] = [u for u in pr["utilities"] if u["type"] == "Cold"] + [
+                {"name": "LOOP", "type": rng.choice(["Hot", "Both"]), "t_supply": a, "t_target": b, "heat_flow": 0.0,
+                 "dt_cont": dt, "htc": 1.0, "price": 10.0}]
+        else:
+            a = cu_t_max - dt + rng.choice([5.0, 15.0, 30.0, 60.0]); b = cu_t_max - dt - rng.choice([5.0, 10.0, 20.0])
+            if rng.random() < 0.3:
+                a, b = b, a
+            pr["utilities"] = [u for u in pr["utilities"] if u["type"] == "Hot"] + [
+                {"name": "LOOP", "type": rng.choice(["Cold", "Both"]), "t_supply": a, "t_target": b, "heat_flow": 0.0,
+                 "dt_cont": dt, "htc": 1.0, "price": 10.0}]
+    elif r < 0.42:
         dt = rng.choice([5.0, 10.0])
         pr["utilities"] = [u for u in pr["utilities"] if u["type"] == "Cold"] + [
             {"name": "LPS", "type": "Hot", "t_supply": hi + rng.choice([-3.0, 0.0, 2.0]), "t_target": hi + rng.choice([-3.0, 0.0, 2.0]),
@@ -45,6 +67,8 @@ def observe(problem):
             "Qh": float(t.hot_utility_target), "Qc": float(t.cold_utility_target),
             "hot": [(u.name, float(u.t_min_star), float(u.t_max_star), float(u.heat_flow)) for u in t.hot_utilities],
             "cold": [(u.name, float(u.t_min_star), float(u.t_max_star), float(u.heat_flow)) for u in t.cold_utilities],
+            "hot_supply": [float(max(u.t_supply, u.t_target)) for u in t.hot_utilities],
+            "cold_supply": [float(min(u.t_supply, u.t_target)) for u in t.cold_utilities],
             "T": [float(v) for v in pt.col[PT.T.value]],
             "NPa": [float(v) for v in pt.col[PT.H_NET_A.value]],
             "UT": [float(v) for v in pt.col[PT.H_NET_UT.value]],
